@@ -28,7 +28,10 @@ RULE = ("forecasts on the grid k/8 in [0,1] and thresholds drawn from the same g
         "dims of size 1-3 in shuffled order, observations in {0,1} on a random subset of the dims, NaN injected with p=0.15 in fcst / obs / weights, "
         "non-negative weights on sub-dims, every reduce/preserve spelling, check_args on and off, malformed stream (forecast or threshold outside "
         "[0,1], unsorted / NaN thresholds, non-binary obs, weights-only dimension, 'threshold' data dimension); a case is distinct by the hash of its "
-        "inputs and non-trivial when at least one POD or POFD value is finite")
+        "inputs and non-trivial when at least one POD or POFD value is finite; round 4: weights multiplied by a positive constant from "
+        "2^-40 ... 2^40 or 1e-12 ... 1e8 in half of the weighted cases (so weighted totals <= 1e-8 occur in ~6% of all cases) plus a second call "
+        "with another such factor for every weighted case, constant weights of any magnitude in 40% of the Mann-Whitney cases, observations "
+        "stored as bool / uint8 / uint16 / int8-64 / float32 in 20% of the NaN-free cases")
 ASSUMPTIONS = ["the rank statistic (Mann-Whitney) used as oracle is computed by the harness with exact fractions, independently of model and implementation"]
 
 
